@@ -13,6 +13,10 @@ pub enum Gen {
     Huff { freqs: Vec<u32>, arr: u8 },
     /// literal abstract sequence
     Lit { seq: Vec<u32> },
+    /// "coarse tiny": the idx-th sequence of `len` blocks over k fills (base-k digits, as Tiny); block j consists of
+    /// `b` copies of its fill symbol, followed by `extra` more copies of symbol 0. Exhaustive at the granularity of
+    /// the layout (blocks of 256 / 512 symbols, 8 per superblock) instead of single symbols.
+    CoarseTiny { k: u32, len: u32, idx: u64, b: usize, extra: usize },
 }
 
 #[derive(Debug, Clone, Copy, Serialize, Deserialize, PartialEq)]
@@ -142,6 +146,15 @@ impl Gen {
                 v
             }
             Gen::Lit { seq } => seq.clone(),
+            Gen::CoarseTiny { k, len, idx, b, extra } => {
+                let fills = Gen::Tiny { k: *k, len: *len, idx: *idx }.abstract_seq();
+                let mut v = Vec::with_capacity(fills.len() * b + extra);
+                for f in fills {
+                    v.extend(std::iter::repeat(f).take(*b));
+                }
+                v.extend(std::iter::repeat(0).take(*extra));
+                v
+            }
         }
     }
 
@@ -151,8 +164,20 @@ impl Gen {
             Gen::Boundary { n, .. } => *n as u64,
             Gen::Huff { freqs, .. } => freqs.iter().map(|&f| f as u64).sum(),
             Gen::Lit { seq } => seq.len() as u64,
+            Gen::CoarseTiny { len, b, extra, .. } => (*len as usize * b + extra) as u64,
         }
     }
+}
+
+/// All CoarseTiny generators with k fills, 1..=max_len blocks of b symbols and `extra` trailing symbols.
+pub fn coarse_all(k: u32, max_len: u32, b: usize, extra: usize) -> Vec<Gen> {
+    let mut v = Vec::new();
+    for len in 1..=max_len {
+        for idx in 0..tiny_count(k, len) {
+            v.push(Gen::CoarseTiny { k, len, idx, b, extra });
+        }
+    }
+    v
 }
 
 /// All Tiny generators with k symbols and lengths 0..=max_len (Σ k^len of them).
@@ -407,6 +432,9 @@ pub enum BitGen {
     Pos { pos: Vec<usize>, tail: usize },
     /// k bits equal to `first`, then n-k bits equal to !first: places the m-th one / zero at a chosen distance from the end
     PrefixRun { n: usize, k: usize, first: bool },
+    /// "coarse tiny" bit vectors: unit j (a 64-bit word if `unit` = 64, a 512-bit line if 512) is filled by the j-th base-4
+    /// digit of idx: 0 zeros, 1 ones, 2 only its first bit set, 3 only its last bit set; then `extra` zero bits.
+    Coarse { unit: usize, len: u32, idx: u64, extra: usize },
     /// DArray groups
     Groups { groups: Vec<Grp>, partial: usize, pk: Grp, lead: usize, tail: usize, complement: bool },
 }
@@ -459,6 +487,24 @@ impl BitGen {
                     .collect()
             }
             BitGen::PrefixRun { n, k, first } => (0..*n).map(|i| (i < *k) == *first).collect(),
+            BitGen::Coarse { unit, len, idx, extra } => {
+                let mut v = Vec::with_capacity(*len as usize * unit + extra);
+                let mut x = *idx;
+                for _ in 0..*len {
+                    let d = x % 4;
+                    x /= 4;
+                    for i in 0..*unit {
+                        v.push(match d {
+                            0 => false,
+                            1 => true,
+                            2 => i == 0,
+                            _ => i + 1 == *unit,
+                        });
+                    }
+                }
+                v.extend(std::iter::repeat(false).take(*extra));
+                v
+            }
             BitGen::Pos { pos, tail } => {
                 let n = pos.last().map_or(0, |l| l + 1) + tail;
                 let mut v = vec![false; n];
@@ -483,10 +529,48 @@ impl BitGen {
             BitGen::Tiny { len, .. } => *len as u64,
             BitGen::Pat { n, .. } => *n as u64,
             BitGen::PrefixRun { n, .. } => *n as u64,
+            BitGen::Coarse { unit, len, extra, .. } => (*len as usize * unit + extra) as u64,
             BitGen::Pos { pos, tail } => (pos.last().copied().unwrap_or(0) + tail) as u64,
             BitGen::Groups { groups, partial, .. } => (groups.len() as u64 * 72000) + *partial as u64 * 70,
         }
     }
+}
+
+/// All Coarse bit generators with 1..=max_len units.
+pub fn coarse_bits_all(unit: usize, max_len: u32, extra: usize) -> Vec<BitGen> {
+    let mut v = Vec::new();
+    for len in 1..=max_len {
+        for idx in 0..(1u64 << (2 * len)) {
+            v.push(BitGen::Coarse { unit, len, idx, extra });
+        }
+    }
+    v
+}
+
+/// Position lists whose consecutive gaps are all combinations of up to `k` values around the 16-bit boundary that DArray's
+/// dense / sparse decision and its u16 offsets live on (1, 65534, 65535, 65536, 70000), from three start offsets.
+pub fn boundary_gap_lists(k: usize) -> Vec<BitGen> {
+    let gaps = [1usize, 65534, 65535, 65536, 70000];
+    let mut out = Vec::new();
+    for start in [0usize, 5, 65535] {
+        let mut level: Vec<Vec<usize>> = vec![vec![start]];
+        for _ in 0..k {
+            let mut next = Vec::new();
+            for p in &level {
+                for g in gaps {
+                    let mut q = p.clone();
+                    q.push(p[p.len() - 1] + g);
+                    next.push(q);
+                }
+            }
+            for q in &next {
+                out.push(BitGen::Pos { pos: q.clone(), tail: 0 });
+                out.push(BitGen::Pos { pos: q.clone(), tail: 3 });
+            }
+            level = next;
+        }
+    }
+    out
 }
 
 pub fn tinybits_all(max_len: u32) -> Vec<BitGen> {
